@@ -33,6 +33,9 @@ EnvClauses(r) == [
   C08_ScalePow2Exact |-> r.pow2_same,
   C08_ShiftPow2Exact |-> r.shift_same,
   C08_ScaleWithinOne |-> r.scale_close,
+  \* an offset that dwarfs the signal (2^18 times its range, still exact in
+  \* binary floating point) moves the index by at most one sample
+  C08_LargeShiftWithinOne |-> r.bigshift_close,
   C08_DegenerateFallsBack |-> r.degenerate => r.fallback_ok,
   C08_DetailsAgree |-> r.details_same
   ]
